@@ -774,6 +774,7 @@ def check(ctx) -> None:
     rule_b13(ctx)
     rule_b14(ctx, reach)
     rule_b15(ctx, reach)
+    rule_fence_handler_total(ctx, reach, "C06-B16")
     rule_b5(ctx, pl)
     rule_b6(ctx, reach)
     rule_b7(ctx, ctx.res.reachable(["synrbl.balancing.Balancer.rebalance"], ctx.graph))
@@ -972,6 +973,62 @@ def rule_b14(ctx, scope, rule_id: str = "C06-B14") -> None:
             if not inner_ok:
                 ctx.finding(rule_id, "%s:per-reaction-fence-incomplete" % short, f.loc(t), "the handlers that turn a fault of this reaction's work into its issue text catch only %s: any other exception type (RDKit raises Boost ArgumentError/TypeError, KeyError, ...) escapes to the batch-level handler of the Balancer, and every row of the batch is lost with it" % [unparse(h.type) for h in t.handlers if h.type is not None])
     ctx.require(n >= 3, "fewer than 3 per-reaction fences found on the pipeline path (%d)" % n)
+
+
+def rule_fence_handler_total(ctx, scope, rule_id: str) -> None:
+    """The handler that writes the issue text is the last line of defence for the batch: an exception raised *inside*
+    it leaves through the job, the stage and the pipeline.  Its statements therefore use operations that cannot fail on
+    an arbitrary exception object: `str(e)`, `repr(e)`, `type(e).__name__`, `"..".format(..)`, f-strings, `%`, `+` on
+    such strings, releasing the pool, logging.  Indexing into something computed from the exception
+    (`str(e).splitlines()[0]` - an empty message has no first line) or calling other code is not one of them."""
+    ctx.rule(rule_id, "the statements of a handler that records a per-reaction fault cannot raise on any exception object", 3)
+    prog = ctx.prog
+    SAFE_NAMES = {"str", "repr", "type", "isinstance", "len", "bool", "format", "getattr"}
+    SAFE_ATTRS = {"format", "terminate", "close", "join", "debug", "info", "warning", "error", "exception", "strip", "rstrip", "lstrip", "replace", "splitlines", "split", "lower", "upper", "get", "keys"}
+    n = 0
+    for q in sorted(scope):
+        f = prog.functions.get(q)
+        if f is None or not q.startswith("synrbl."):
+            continue
+        for t in [t for t in own_nodes(f.node) if isinstance(t, ast.Try)]:
+            for h in t.handlers:
+                if not _writes_issue(h):
+                    continue
+                n += 1
+                bad = None
+                for b in h.body:
+                    for x in ast.walk(b):
+                        if isinstance(x, ast.Subscript) and isinstance(x.ctx, ast.Load):
+                            # reading a field of the record being completed is what the handlers of the tree do
+                            # (`mcs_data[id_col]`); an index into a computed value is not
+                            if not isinstance(x.value, ast.Name):
+                                v_ = x.value
+                                # str.split(sep) / rsplit(sep) / partition(sep) always have a first and a last element
+                                total = (
+                                    isinstance(v_, ast.Call)
+                                    and isinstance(v_.func, ast.Attribute)
+                                    and v_.func.attr in ("split", "rsplit", "partition", "rpartition")
+                                    and len(v_.args) >= 1
+                                    and not (isinstance(v_.args[0], ast.Constant) and v_.args[0].value is None)
+                                    and isinstance(x.slice, (ast.Constant, ast.UnaryOp))
+                                    and unparse(x.slice) in ("0", "-1")
+                                )
+                                if not total:
+                                    bad = bad or (x, "indexes into a computed value")
+                        elif isinstance(x, ast.Call):
+                            if isinstance(x.func, ast.Name) and x.func.id in SAFE_NAMES:
+                                continue
+                            if isinstance(x.func, ast.Attribute) and x.func.attr in SAFE_ATTRS:
+                                continue
+                            bad = bad or (x, "calls %s" % unparse(x.func)[:40])
+                        elif isinstance(x, (ast.Assert, ast.Raise)):
+                            if isinstance(x, ast.Raise):
+                                continue
+                            bad = bad or (x, "asserts")
+                ctx.instance(rule_id, "%s: handler `except %s` uses only operations that cannot fail" % (q.split("synrbl.", 1)[-1], unparse(h.type) if h.type else ""), f.loc(h), ok=bad is None)
+                if bad is not None:
+                    ctx.finding(rule_id, "%s:handler-can-raise" % q.split("synrbl.", 1)[-1], f.loc(bad[0]), "the handler that turns a fault of this reaction into its issue text %s (`%s`): for an exception object on which that fails (an empty message, an unusual type) the handler itself raises, the error leaves the per-reaction job and the Balancer drops the whole batch" % (bad[1], unparse(bad[0])[:50]))
+    ctx.require(n >= 3, "fewer than 3 issue-writing handlers found on the pipeline path (%d)" % n)
 
 
 def rule_b15(ctx, scope, rule_id: str = "C06-B15") -> None:
